@@ -163,6 +163,127 @@ struct Scenario {
     /// status (a 401 / 403 "debug aid" that shows the key, a 429 path) needs the status to occur
     #[serde(default)]
     http_status: u16,
+    /// the SPAWN GRID: every way this authority spawns a subprocess x every argument that changes the spawn path; each probe
+    /// prints its environment (see `SpawnProbe`).  Executed in order on ONE authority process.
+    #[serde(default)]
+    spawns: Vec<SpawnProbe>,
+}
+/// One subprocess spawn of the authority.  The spawn sites of /repo: rip-tools builtins/shell.rs `run_command` (the `bash` tool and
+/// its alias `shell`: by tool command envelope on the session path, or on the provider's request in a run), ripd tasks/pipes.rs
+/// `run_pipes_task` and tasks/pty.rs `run_pty_task` (background tasks: POST /tasks, `rip tasks spawn`).  Each site: `cwd` given
+/// (resolved below the workspace root; absolute paths and `..` are refused, a missing directory makes the spawn fail) or absent
+/// (workspace root), then the credential variables are removed, then the call's own `env` is applied, then the spawn.
+#[derive(Clone, Serialize, Deserialize, Debug, Default, PartialEq)]
+struct SpawnProbe {
+    /// "envelope" (tool command envelope on the session path), "provider" (the scripted provider asks for the tool in a run),
+    /// "task" (POST /tasks), "cli-task" (`rip tasks spawn` through the real CLI)
+    via: String,
+    /// "bash" | "shell" (alias)
+    tool: String,
+    /// tasks: `execution_mode` absent (= pipes) | "pipes" | "pty"
+    #[serde(default)]
+    mode: Option<String>,
+    /// the `cwd` argument ({{W}} = the workspace root, for the absolute form)
+    #[serde(default)]
+    cwd: Option<String>,
+    /// whether `<workspace>/<cwd>` is a directory (a fact of the file system the generator arranges and the child re-checks)
+    #[serde(default)]
+    dir_exists: bool,
+    /// the `env` argument of the call
+    #[serde(default)]
+    env: Option<Vec<(String, String)>>,
+    #[serde(default)]
+    title: Option<String>,
+    /// further arguments that reach the spawn function: max_bytes, artifact_max_bytes, rows, cols (args); timeout_ms (envelope)
+    #[serde(default)]
+    extra: Vec<(String, u64)>,
+    /// tasks: `origin_session_id` given
+    #[serde(default)]
+    origin: bool,
+    /// what prints the environment besides the `env` of the view section: 0 nothing more, 1 `printenv <credential names>`,
+    /// 2 `tr '\0' '\n' </proc/self/environ`, 3 `export -p`, 4 `sh -c env` (a grandchild), 5 `env | sort`, 6 `cat /proc/self/environ`
+    /// ALONE (raw NUL-separated; no view tags)
+    #[serde(default)]
+    dump: u8,
+}
+impl SpawnProbe {
+    fn refused(&self) -> bool {
+        match &self.cwd {
+            Some(c) => c.starts_with('/') || c.starts_with("{{W}}") || c.split('/').any(|p| p == ".."),
+            None => false,
+        }
+    }
+    /// a subprocess is expected to run
+    fn spawns(&self) -> bool {
+        // (a pty task whose directory is missing is spawned all the same: portable_pty falls back to the home directory)
+        !self.refused() && (self.cwd.is_none() || self.dir_exists || self.is_pty())
+    }
+    fn is_pty(&self) -> bool {
+        self.mode.as_deref() == Some("pty")
+    }
+    fn label(&self) -> String {
+        format!(
+            "via={} tool={} mode={} cwd={} env={} title={} extra={:?} dump={}",
+            self.via,
+            self.tool,
+            self.mode.as_deref().unwrap_or("(absent)"),
+            self.cwd.as_ref().map(|c| format!("{c:?}")).unwrap_or_else(|| "(absent)".into()),
+            self.env.as_ref().map(|e| format!("{:?}", e.iter().map(|(k, _)| k.as_str()).collect::<Vec<_>>())).unwrap_or_else(|| "(absent)".into()),
+            self.title.is_some(),
+            self.extra,
+            self.dump
+        )
+    }
+    /// the shell command: a VIEW section (`env` between tags) and the probe's own way of printing the environment, written to
+    /// stdout in ONE piece (a task's output frames follow the reads of the pipe: several writes would make their number depend on timing)
+    fn command(&self, i: usize, names: &[String]) -> String {
+        if self.dump % 7 == 6 {
+            return "cat /proc/self/environ".to_string();
+        }
+        let extra = match self.dump % 7 {
+            1 => format!("; printenv {}", names.join(" ")),
+            2 => "; tr '\\0' '\\n' </proc/self/environ".to_string(),
+            3 => "; export -p".to_string(),
+            4 => "; sh -c env".to_string(),
+            5 => "; env | sort".to_string(),
+            _ => String::new(),
+        };
+        // (`dd obs=..` re-blocks: everything is written once, at the end)
+        format!("{{ echo RVVIEW-{i}; env; echo RVEND-{i}{extra}; }} 2>&1 | dd obs=65536 2>/dev/null")
+    }
+    /// the `args` object of the tool call / task
+    fn args(&self, i: usize, names: &[String]) -> Value {
+        let mut a = serde_json::Map::new();
+        a.insert("command".into(), json!(self.command(i, names)));
+        if let Some(c) = &self.cwd {
+            a.insert("cwd".into(), json!(c));
+        }
+        if let Some(e) = &self.env {
+            a.insert("env".into(), Value::Object(e.iter().map(|(k, v)| (k.clone(), json!(v))).collect()));
+        }
+        for (k, v) in &self.extra {
+            if k != "timeout_ms" {
+                a.insert(k.clone(), json!(v));
+            }
+        }
+        Value::Object(a)
+    }
+}
+/// the VIEW of probe `i` in what a subprocess printed: (name, value) of every variable of its environment; None = no view
+/// section (nothing was spawned, or the output is not the probe's)
+fn probe_view(out: &str, i: usize, raw_dump: bool) -> Option<Vec<(String, String)>> {
+    let lines: Vec<&str> = out.split(|c| c == '\n' || c == '\0').map(|l| l.trim_end_matches('\r')).collect();
+    let body: Vec<&str> = if raw_dump {
+        if !lines.iter().any(|l| l.starts_with("PATH=")) {
+            return None;
+        }
+        lines
+    } else {
+        let start = lines.iter().position(|l| *l == format!("RVVIEW-{i}"))?;
+        let len = lines[start + 1..].iter().position(|l| *l == format!("RVEND-{i}"))?;
+        lines[start + 1..start + 1 + len].to_vec()
+    };
+    Some(body.iter().filter_map(|l| l.split_once('=')).map(|(k, v)| (k.to_string(), v.to_string())).collect())
 }
 #[derive(Clone, Serialize, Deserialize, Debug, Default)]
 struct Phase2 {
@@ -228,6 +349,9 @@ fn concretise(sc: &Scenario, m: &[(&str, &str)]) -> Scenario {
         o.endpoint = subst_opt(&o.endpoint, m);
     }
     c.misfit = subst_opt(&c.misfit, m);
+    for p in &mut c.spawns {
+        p.cwd = subst_opt(&p.cwd, m);
+    }
     c
 }
 
@@ -401,6 +525,11 @@ struct ChildSpec {
     cli_run: Option<Vec<String>>,
     #[serde(default)]
     phase2: Option<ChildPhase2>,
+    /// the spawn grid: the probes and, per probe, the `args` object of the call
+    #[serde(default)]
+    spawns: Vec<SpawnProbe>,
+    #[serde(default)]
+    spawn_args: Vec<Value>,
 }
 #[derive(Serialize, Deserialize, Debug, Default)]
 struct ChildPhase2 {
@@ -438,6 +567,9 @@ struct ChildObs {
     /// multi-step scenarios: what the probing subprocess printed (`printenv NAME; env`)
     #[serde(default)]
     probe_out: Option<String>,
+    /// spawn grid: what the subprocess of probe i printed (None: nothing could be read)
+    #[serde(default)]
+    spawn_outs: Vec<Option<String>>,
 }
 
 /// state of a process that is not our child: gone (or a zombie nobody reaped yet) = true
@@ -575,6 +707,73 @@ async fn child_drive_cli(spec: &ChildSpec, rip: &str) -> ChildObs {
             tokio::time::sleep(Duration::from_millis(10)).await;
         }
     }
+    if !spec.spawns.is_empty() {
+        // the SPAWN GRID through the real CLI: `rip tasks spawn` (the first call spawns the local authority, which inherits the
+        // environment of `rip`), the wait over HTTP on the authority it spawned (a fixed number of CLI invocations: their stderr
+        // takes part in the differential), then `rip tasks status` / `rip tasks output`
+        obs.spawn_outs = vec![None; spec.spawns.len()];
+        for (i, p) in spec.spawns.iter().enumerate() {
+            if p.via != "cli-task" {
+                continue;
+            }
+            let args_json = serde_json::to_string(&spec.spawn_args.get(i).cloned().unwrap_or(Value::Null)).unwrap();
+            let mut a: Vec<String> = vec!["tasks".into(), "spawn".into(), "--tool".into(), p.tool.clone(), "--args".into(), args_json];
+            if let Some(m) = &p.mode {
+                a.extend(["--execution-mode".to_string(), m.clone()]);
+            }
+            if let Some(t) = &p.title {
+                a.extend(["--title".to_string(), t.clone()]);
+            }
+            let Some(created) = run_cli(&mut obs, &a) else { continue };
+            let tid = serde_json::from_str::<Value>(created.trim()).ok().and_then(|v| v["task_id"].as_str().map(String::from)).unwrap_or_default();
+            let Some(meta) = ripd::read_authority_meta(Path::new(&spec.data_dir)).ok().flatten() else {
+                obs.errors.push("no authority meta.json after `rip tasks spawn`".into());
+                continue;
+            };
+            if tid.is_empty() {
+                obs.errors.push(format!("`rip tasks spawn` printed no task id: {created}"));
+                continue;
+            }
+            let app = Target::Http(reqwest::Client::builder().no_proxy().build().unwrap(), meta.endpoint.clone());
+            let stream = if p.is_pty() { "pty" } else { "stdout" };
+            let mut done = false;
+            for _ in 0..4800 {
+                let (_, b) = call(&app, &mut raw, &mut obs, "GET", &format!("/tasks/{tid}"), None).await;
+                obs.bodies.pop();
+                obs.statuses.pop();
+                let stv = serde_json::from_slice::<Value>(&b).unwrap_or(Value::Null);
+                if matches!(stv["status"].as_str(), Some("exited") | Some("failed") | Some("cancelled")) {
+                    done = true;
+                    break;
+                }
+                if p.is_pty() {
+                    // (a pty task does not reach a final status: see drive_task_probe)
+                    let (_, out) = call(&app, &mut raw, &mut obs, "GET", &format!("/tasks/{tid}/output?stream=pty&offset_bytes=0"), None).await;
+                    obs.bodies.pop();
+                    obs.statuses.pop();
+                    let t = serde_json::from_slice::<Value>(&out).ok().and_then(|v| v["content"].as_str().map(String::from)).unwrap_or_default();
+                    if t.contains(&format!("RVEND-{i}")) {
+                        done = true;
+                        break;
+                    }
+                }
+                tokio::time::sleep(Duration::from_millis(50)).await;
+            }
+            if !done {
+                obs.errors.push(format!("task {tid} ({}) did not finish", p.label()));
+            }
+            run_cli(&mut obs, &["tasks".to_string(), "status".to_string(), tid.clone()]);
+            if p.spawns() {
+                let out = run_cli(&mut obs, &["tasks".to_string(), "output".to_string(), tid.clone(), "--stream".to_string(), stream.to_string()]);
+                obs.spawn_outs[i] = out.map(|o| serde_json::from_str::<Value>(o.trim()).ok().and_then(|v| v["content"].as_str().map(String::from)).unwrap_or(o));
+            } else {
+                obs.spawn_outs[i] = Some(String::new());
+            }
+            if p.is_pty() {
+                run_cli(&mut obs, &["tasks".to_string(), "cancel".to_string(), tid.clone(), "--reason".to_string(), "probe done".to_string()]);
+            }
+        }
+    }
     obs.doctor = run_cli(&mut obs, &doctor_args).and_then(|s| serde_json::from_str(&s).ok()).unwrap_or(Value::Null);
     obs.doctor_after = run_cli(&mut obs, &doctor_args).and_then(|s| serde_json::from_str(&s).ok()).unwrap_or(Value::Null);
     if let Some(p2) = &spec.phase2 {
@@ -598,7 +797,7 @@ async fn child_drive_cli(spec: &ChildSpec, rip: &str) -> ChildObs {
             libc::kill(meta.pid as i32, libc::SIGTERM);
         }
         let mut gone = false;
-        for _ in 0..6000 {
+        for _ in 0..(if spec.spawns.iter().any(|p| p.is_pty()) { 300 } else { 6000 }) {
             if pid_gone(meta.pid) {
                 gone = true;
                 break;
@@ -953,6 +1152,110 @@ async fn drive_task(app: &Target, raw: &mut Vec<u8>, obs: &mut ChildObs, mode: &
     Some(text)
 }
 
+/// one background task of the spawn grid (POST /tasks with every argument of the probe); returns what it printed
+async fn drive_task_probe(app: &Target, raw: &mut Vec<u8>, obs: &mut ChildObs, p: &SpawnProbe, i: usize, args: Value) -> Option<String> {
+    let mut body = json!({ "tool": p.tool, "args": args });
+    if let Some(m) = &p.mode {
+        body["execution_mode"] = json!(m);
+    }
+    if let Some(t) = &p.title {
+        body["title"] = json!(t);
+    }
+    if p.origin {
+        body["origin_session_id"] = json!("00000000-0000-4000-8000-00000000c019");
+    }
+    let (st, b) = call(app, raw, obs, "POST", "/tasks", Some(body)).await;
+    let tid = serde_json::from_slice::<Value>(&b).ok().and_then(|v| v["task_id"].as_str().map(String::from)).unwrap_or_default();
+    if tid.is_empty() {
+        obs.errors.push(format!("POST /tasks ({}) gave {st} and no task id", p.label()));
+        return None;
+    }
+    let stream = if p.is_pty() { "pty" } else { "stdout" };
+    let content_of = |b: &[u8]| serde_json::from_slice::<Value>(b).ok().and_then(|v| v["content"].as_str().map(String::from));
+    let complete = |t: &str| if p.dump % 7 == 6 { t.contains("PATH=") } else { t.contains(&format!("RVEND-{i}")) };
+    let mut done = false;
+    // generous, load-independent watchdog (240 s)
+    for _ in 0..4800 {
+        let (_, b) = call(app, raw, obs, "GET", &format!("/tasks/{tid}"), None).await;
+        obs.bodies.pop();
+        obs.statuses.pop();
+        let stv = serde_json::from_slice::<Value>(&b).unwrap_or(Value::Null);
+        if matches!(stv["status"].as_str(), Some("exited") | Some("failed") | Some("cancelled")) {
+            done = true;
+            break;
+        }
+        if p.is_pty() {
+            // a pty task never reaches a final status here: run_pty_task keeps the slave side of the pty open in the authority
+            // (`pair.slave` lives to the end of the function), so its reader never sees the end of the output and the loop
+            // `while !(exit_status.is_some() && output_closed)` does not end (ripd's own pty tests hang the same way).  Not a
+            // C19 matter: the probe is over when its output is complete.
+            let (_, out) = call(app, raw, obs, "GET", &format!("/tasks/{tid}/output?stream=pty&offset_bytes=0"), None).await;
+            obs.bodies.pop();
+            obs.statuses.pop();
+            if content_of(&out).map(|t| complete(&t)).unwrap_or(false) {
+                done = true;
+                break;
+            }
+        }
+        tokio::time::sleep(Duration::from_millis(50)).await;
+    }
+    if !done {
+        obs.errors.push(format!("task {tid} ({}) did not finish", p.label()));
+    }
+    let (_, out) = call(app, raw, obs, "GET", &format!("/tasks/{tid}/output?stream={stream}&offset_bytes=0"), None).await;
+    let text = content_of(&out).unwrap_or_else(|| String::from_utf8_lossy(&out).to_string());
+    if p.is_pty() {
+        call(app, raw, obs, "POST", &format!("/tasks/{tid}/cancel"), Some(json!({ "reason": "probe done" }))).await;
+    } else {
+        // the task's own event stream (a replay of its history): a sink of its own
+        let ended = |v: &Value| v["type"] == "tool_task_status" && matches!(v["status"].as_str(), Some("exited") | Some("failed") | Some("cancelled"));
+        sse_until(app, raw, obs, &format!("/tasks/{tid}/events"), &ended, &|| true, 60).await;
+    }
+    Some(text)
+}
+
+/// the SPAWN GRID on one authority process: every probe in order; the provider-requested ones in ONE run (at the position of
+/// the first of them)
+async fn drive_spawns(app: &Target, raw: &mut Vec<u8>, obs: &mut ChildObs, spec: &ChildSpec) {
+    let data_dir = PathBuf::from(&spec.data_dir);
+    obs.spawn_outs = vec![None; spec.spawns.len()];
+    for p in &spec.spawns {
+        if let (Some(c), false) = (&p.cwd, p.refused()) {
+            if Path::new(&spec.workspace).join(c).is_dir() != p.dir_exists {
+                obs.errors.push(format!("the probe's claim about its directory is wrong ({})", p.label()));
+            }
+        }
+    }
+    let mut provider_done = false;
+    for (i, p) in spec.spawns.iter().enumerate() {
+        let args = spec.spawn_args.get(i).cloned().unwrap_or(Value::Null);
+        match p.via.as_str() {
+            "envelope" => {
+                let mut input = json!({ "tool": p.tool, "args": args });
+                if let Some((_, t)) = p.extra.iter().find(|(k, _)| k == "timeout_ms") {
+                    input["timeout_ms"] = json!(t);
+                }
+                let sid = drive_session_input(app, raw, obs, spec, &input.to_string()).await;
+                obs.spawn_outs[i] = Some(tool_stdout_of(&data_dir, &sid));
+            }
+            "provider" if !provider_done => {
+                provider_done = true;
+                let sid = drive_run(app, raw, obs, spec, &spec.prompt).await;
+                let out = tool_stdout_of(&data_dir, &sid);
+                for (k, q) in spec.spawns.iter().enumerate() {
+                    if q.via == "provider" {
+                        obs.spawn_outs[k] = Some(out.clone());
+                    }
+                }
+            }
+            "task" => {
+                obs.spawn_outs[i] = drive_task_probe(app, raw, obs, p, i, args).await;
+            }
+            _ => {}
+        }
+    }
+}
+
 async fn child_drive(spec: &ChildSpec) -> ChildObs {
     if let Some(rip) = &spec.rip_bin {
         return child_drive_cli(spec, rip).await;
@@ -1017,7 +1320,9 @@ async fn child_drive(spec: &ChildSpec) -> ChildObs {
     let (_, b) = call(&app, &mut raw, &mut obs, "GET", "/config/doctor", None).await;
     obs.doctor = serde_json::from_slice(&b).unwrap_or(Value::Null);
 
-    if let Some(p2) = &spec.phase2 {
+    if !spec.spawns.is_empty() {
+        drive_spawns(&app, &mut raw, &mut obs, spec).await;
+    } else if let Some(p2) = &spec.phase2 {
         // MULTI-STEP: warm-up (a subprocess is spawned) -> the configuration files are edited -> load -> probe
         match p2.warmup.as_str() {
             "session-tool" => {
@@ -1091,7 +1396,10 @@ async fn child_drive(spec: &ChildSpec) -> ChildObs {
             libc::kill(c.id() as i32, libc::SIGTERM);
         }
         let mut gone = false;
-        for _ in 0..3000 {
+        // (a pty task that never ends - see drive_task_probe - keeps a blocking reader alive: the runtime of the authority does
+        // not come down on its own)
+        let patience = if spec.spawns.iter().any(|p| p.is_pty()) { 300 } else { 3000 };
+        for _ in 0..patience {
             if let Ok(Some(_)) = c.try_wait() {
                 gone = true;
                 break;
@@ -1130,7 +1438,37 @@ fn ev_call(call_id: &str, name: &str, args: &str) -> Vec<Value> {
     ]
 }
 /// the provider's answers for a whole scenario: the outcome's script, or - multi-step - the warm-up's and the probe's
+/// the credential variable names of a scenario (the three fixed ones, every `{ "env": NAME }` of its files) + the public marker
+fn probe_names(sc: &Scenario) -> Vec<String> {
+    let mut v: Vec<String> = vec!["RIP_OPENRESPONSES_API_KEY".into(), "OPENAI_API_KEY".into(), "OPENROUTER_API_KEY".into()];
+    for l in &sc.layers {
+        for p in &l.providers {
+            if let Some(KeySpec::Env(n)) = &p.api_key {
+                if !v.contains(n) {
+                    v.push(n.clone());
+                }
+            }
+        }
+    }
+    v.push("RV_PUBLIC_MARKER".into());
+    v
+}
 fn script_for_scenario(sc: &Scenario) -> Vec<Scripted> {
+    if sc.spawns.iter().any(|p| p.via == "provider") {
+        // the spawn grid: ONE answer asks for every provider-requested probe (one function call each), the next one ends the run
+        let names = probe_names(sc);
+        let mut first = vec![ev_created("resp_g_1")];
+        let mut k = 0u64;
+        for (i, p) in sc.spawns.iter().enumerate() {
+            if p.via == "provider" {
+                let item = json!({"type":"function_call","call_id":format!("call_g{i}"),"name":p.tool,"arguments":serde_json::to_string(&p.args(i, &names)).unwrap()});
+                first.push(json!({"type":"response.output_item.added","output_index":k,"item":item}));
+                first.push(json!({"type":"response.output_item.done","output_index":k,"item":item}));
+                k += 1;
+            }
+        }
+        return vec![Scripted::sse_text(&sse(&first, true)), Scripted::sse_text(&sse(&[ev_created("resp_g_2"), ev_delta("done")], true))];
+    }
     let Some(p2) = &sc.phase2 else { return script_for(sc.outcome, if sc.http_status == 0 { 500 } else { sc.http_status }) };
     let ask = |id: &str, cmd: &str| {
         let mut first = vec![ev_created(&format!("resp_{id}_1"))];
@@ -1296,7 +1634,8 @@ fn run_once(sc: &Scenario, key: &str, hdr: &str, num: &str) -> RunOut {
     let target = if sc.outcome == 2 { dead.clone() } else { prov.clone() };
     let rkey: String = key.chars().rev().collect();
     let schemeless = target.trim_start_matches("http://").to_string();
-    let m: Vec<(&str, &str)> = vec![("{{K}}", key), ("{{R}}", &rkey), ("{{H}}", hdr), ("{{N}}", num), ("{{P}}", &target), ("{{Q}}", &schemeless)];
+    let ws_abs = root.join("outer/ws").display().to_string();
+    let m: Vec<(&str, &str)> = vec![("{{K}}", key), ("{{R}}", &rkey), ("{{H}}", hdr), ("{{N}}", num), ("{{P}}", &target), ("{{Q}}", &schemeless), ("{{W}}", &ws_abs)];
     let c = concretise(sc, &m);
     for d in ["home/.rip", "cfghome", "custom", "outer/.git", "outer/ws", "data", "out"] {
         std::fs::create_dir_all(root.join(d)).unwrap();
@@ -1304,6 +1643,13 @@ fn run_once(sc: &Scenario, key: &str, hdr: &str, num: &str) -> RunOut {
     for l in &c.layers {
         std::fs::write(root.join(layer_relpath(l.slot, c.config_home)), subst(&layer_text(l), &m)).unwrap();
     }
+    if !c.spawns.is_empty() {
+        // the directories the probes' `cwd` arguments name
+        for d in ["outer/ws/sub/deeper", "outer/ws/with space"] {
+            std::fs::create_dir_all(root.join(d)).unwrap();
+        }
+    }
+    let names = probe_names(&c);
     let spec = ChildSpec {
         data_dir: root.join("data").display().to_string(),
         workspace: root.join("outer/ws").display().to_string(),
@@ -1343,6 +1689,8 @@ fn run_once(sc: &Scenario, key: &str, hdr: &str, num: &str) -> RunOut {
             probe: p.probe.clone(),
             name: p.name.clone(),
         }),
+        spawn_args: c.spawns.iter().enumerate().map(|(i, p)| p.args(i, &names)).collect(),
+        spawns: c.spawns.clone(),
     };
     let spec_path = root.join("out/spec.json");
     std::fs::write(&spec_path, serde_json::to_vec(&spec).unwrap()).unwrap();
@@ -1619,6 +1967,53 @@ fn enc_recorded(o: &mut Vec<u64>, req: Option<&Recorded>) {
         }
     }
 }
+/// spawn grid: the names whose visibility is compared - the scenario's environment in order, then the names that only a call's
+/// `env` argument supplies, in order of first appearance
+fn view_names(sc: &Scenario) -> Vec<String> {
+    let mut v: Vec<String> = sc.env.iter().map(|(k, _)| k.clone()).collect();
+    for p in &sc.spawns {
+        for (k, _) in p.env.iter().flatten() {
+            if !v.contains(k) {
+                v.push(k.clone());
+            }
+        }
+    }
+    v
+}
+/// the (name, value) pairs probe i's subprocess printed in its view section
+fn spawn_view_of(r: &RunOut, i: usize) -> Option<Vec<(String, String)>> {
+    let p = &r.sc.spawns[i];
+    let out = r.obs.spawn_outs.get(i).cloned().flatten()?;
+    probe_view(&out, i, p.dump % 7 == 6)
+}
+/// per probe: None (no subprocess printed a view) or one code per name of `view_names`: 0 not in the subprocess's environment,
+/// 1 there with the authority's value, 2 there with the value of the call's own `env`, 3 there with some other value
+fn spawn_views(r: &RunOut) -> Vec<Option<Vec<u64>>> {
+    let names = view_names(&r.sc);
+    (0..r.sc.spawns.len())
+        .map(|i| {
+            let view = spawn_view_of(r, i)?;
+            let p = &r.sc.spawns[i];
+            Some(
+                names
+                    .iter()
+                    .map(|k| match view.iter().find(|(n, _)| n == k) {
+                        None => 0,
+                        Some((_, v)) => {
+                            if p.env.iter().flatten().any(|(n, x)| n == k && x == v) {
+                                2
+                            } else if r.sc.env.iter().any(|(n, x)| n == k && x == v) {
+                                1
+                            } else {
+                                3
+                            }
+                        }
+                    })
+                    .collect(),
+            )
+        })
+        .collect()
+}
 /// what the implementation showed, flattened (mirrors `model_obs` in Model/SecretFlow.v)
 fn observe(r: &RunOut) -> Vec<u64> {
     let mut o = vec![];
@@ -1675,6 +2070,21 @@ fn observe(r: &RunOut) -> Vec<u64> {
         enc_ostr(&mut o, d["followup_user_message"].as_str());
     } else {
         o.push(0);
+    }
+    if !r.sc.spawns.is_empty() {
+        // the spawn grid: per probe, what its subprocess saw of every variable
+        let views = spawn_views(r);
+        o.push(views.len() as u64);
+        for v in views {
+            match v {
+                None => o.push(0),
+                Some(codes) => {
+                    o.push(1);
+                    o.extend(codes);
+                }
+            }
+        }
+        return o;
     }
     if r.sc.phase2.is_some() {
         // which of the scenario's variables the probing subprocess saw (names only)
@@ -1847,12 +2257,26 @@ fn coq_case(c: &Scenario, obs: &[u64], m: &[(&str, &str)]) -> String {
     };
     // 98 / 97: multi-step probe with / without the edited configuration loaded before the subprocess is spawned; 96 = 98 with
     // the probe being a provider-driven run (its opening request is compared too)
+    // 95: the spawn grid - the report + per probe what its subprocess saw of every variable
     let outcome = match &c.phase2 {
         Some(p2) => if p2.load == "none" { 97 } else if p2.probe == "provider-bash" { 96 } else { 98 },
-        None => if c.doctor_only { 99 } else { c.outcome as u64 },
+        None => if !c.spawns.is_empty() { 95 } else if c.doctor_only { 99 } else { c.outcome as u64 },
     };
     let cli = c.cli_flags.as_ref().map(|f| f.coq()).unwrap_or_else(|| "None".into());
-    format!("mkCase (world_of (mkJWorld {} {} ({}))) {} {} {} {} {}", ls, env, ovr, before, cli, coq_bool(c.thread), outcome, coq_list_n(obs))
+    // a spawn as the model sees it: how it was requested (the model picks the spawn site: tool / pipes / pty), the `cwd` argument and
+    // whether that directory exists, the call's `env`, the title
+    let spawns = coq_list(&c.spawns, |p| {
+        let via = match p.via.as_str() {
+            "envelope" | "provider" => "VTool".to_string(),
+            _ => format!("(VTask {})", match p.mode.as_deref() { None => "None", Some("pty") => "(Some XPty)", Some(_) => "(Some XPipes)" }),
+        };
+        let env = match &p.env {
+            None => "None".to_string(),
+            Some(e) => format!("(Some {})", coq_list(e, |(k, v)| format!("({}, {})", coq_str(k), coq_str(v)))),
+        };
+        format!("mkSpawn {} {} {} {} {}", via, coq_ostr(&p.cwd), coq_bool(p.dir_exists), env, coq_ostr(&p.title))
+    });
+    format!("mkCase (world_of (mkJWorld {} {} ({}))) {} {} {} {} {} {}", ls, env, ovr, before, cli, coq_bool(c.thread), outcome, spawns, coq_list_n(obs))
 }
 
 // ------------------------------------------------------------------ independent doctor oracle
@@ -2570,6 +2994,177 @@ fn gen_multistep(rng: &mut Rng, j: u64, n_combos: u64) -> Scenario {
     sc
 }
 
+/// The SPAWN GRID.  Every way the authority spawns a subprocess - the `bash` tool and its alias `shell` by tool command envelope and
+/// on the provider's request (rip-tools shell.rs run_command), background tasks with `execution_mode` absent / "pipes" / "pty" by
+/// POST /tasks and by `rip tasks spawn` (ripd tasks/pipes.rs, tasks/pty.rs) - x every argument that changes the spawn path: `cwd`
+/// absent / a directory below the root in several spellings / the root itself (".", "") / missing / refused ("..", absolute), `env`
+/// absent / empty / a new variable / overriding a public variable / naming a credential variable itself, title, origin, output
+/// limits, pty size, envelope timeout.  The authority holds credentials from EVERY channel at once: RIP_OPENRESPONSES_API_KEY,
+/// OPENAI_API_KEY, OPENROUTER_API_KEY, the `{ "env": NAME }` key of the selected provider, the `{ "env": NAME }` key of a provider
+/// of another file that no run selects, an inline key and a secret header in a file.  Every probe prints its environment (`env`
+/// plus one of printenv NAMES / /proc/self/environ / export -p / a grandchild's env / sorted env).
+const CWD_FORMS: [(Option<&str>, bool); 10] = [
+    (None, true),
+    (Some("sub"), true),
+    (Some("sub/deeper"), true),
+    (Some("."), true),
+    (Some(""), true),
+    (Some("./sub/"), true),
+    (Some("with space"), true),
+    (Some("nope/missing"), false),
+    (Some("../outside"), false),
+    (Some("/usr"), false),
+];
+const N_ENV_KINDS: u64 = 6;
+/// one probe of the grid: `vm` 0 envelope, 1 provider, 2 task (mode absent), 3 task "pipes", 4 task "pty", 5 `rip tasks spawn` pipes,
+/// 6 `rip tasks spawn` pty; `form` indexes CWD_FORMS; `e` the kind of the `env` argument; `t` rotates everything else
+fn grid_probe(vm: u64, form: usize, e: u64, t: u64, ref_name: &str) -> SpawnProbe {
+    let (cwd, exists) = CWD_FORMS[form % CWD_FORMS.len()];
+    let (via, mode): (&str, Option<&str>) = match vm {
+        0 => ("envelope", None),
+        1 => ("provider", None),
+        2 => ("task", None),
+        3 => ("task", Some("pipes")),
+        4 => ("task", Some("pty")),
+        5 => ("cli-task", Some("pipes")),
+        _ => ("cli-task", Some("pty")),
+    };
+    let env: Option<Vec<(String, String)>> = match e % N_ENV_KINDS {
+        0 => None,
+        1 => Some(vec![]),
+        2 => Some(vec![("RV_EXTRA_FOR_CALL".into(), format!("extra-{t}"))]),
+        3 => Some(vec![("RV_PUBLIC_MARKER".into(), "overridden-by-the-call".into())]),
+        4 => Some(vec![("OPENAI_API_KEY".into(), "supplied-by-the-call-not-a-secret".into()), ("RV_EXTRA_FOR_CALL".into(), "x".into())]),
+        _ => Some(vec![(ref_name.to_string(), "reference-supplied-by-the-call".into())]),
+    };
+    let task = via != "envelope" && via != "provider";
+    let mut extra: Vec<(String, u64)> = vec![];
+    match t % 5 {
+        1 => extra.push(("max_bytes".into(), 65536)),
+        3 => extra.push(("artifact_max_bytes".into(), 1 << 20)),
+        2 if via == "envelope" => extra.push(("timeout_ms".into(), 600_000)),
+        _ => {}
+    }
+    if mode == Some("pty") && t % 2 == 0 {
+        extra.push(("rows".into(), 30));
+        extra.push(("cols".into(), 200));
+    }
+    let raw_dump = via != "provider" && mode != Some("pty") && t % 11 == 5;
+    SpawnProbe {
+        via: via.into(),
+        tool: if (t + t / 7) % 3 == 0 { "shell".into() } else { "bash".into() },
+        mode: mode.map(String::from),
+        cwd: cwd.map(String::from),
+        dir_exists: exists,
+        env,
+        title: if task && t % 2 == 0 { Some(format!("grid probe {t}")) } else { None },
+        extra,
+        origin: task && via == "task" && t % 3 == 1,
+        dump: if raw_dump { 6 } else { ((t + t / 9) % 6) as u8 },
+    }
+}
+/// kind 0: nine probes over envelope / provider / task (mode absent) / task "pipes"; kind 1: one pty task; kind 2: `rip tasks spawn`
+fn gen_spawngrid(rng: &mut Rng, kind: u8, g: u64, seed: u64, full: bool) -> Scenario {
+    let mut sc = Scenario { prompt: format!("spawn grid {kind}/{g}"), outcome: 10, ..Default::default() };
+    sc.config_home = rng.chance(1, 2);
+    sc.shape = [0u8, 1, 3, 5, 2, 4][((g + seed + kind as u64) % 6) as usize];
+    let mut key = if sc.shape == 0 { "{{K}}-sk-{{R}}".to_string() } else { key_template(rng, sc.shape) };
+    while template_flags(&key).0 {
+        // the provider-requested probes need a key that can be sent
+        key = key_template(rng, sc.shape);
+    }
+    let name = ["ACME_LLM_TOKEN", "MY_PROVIDER_KEY", "acme_gateway_key"][((g + seed) % 3) as usize];
+    let alt_name = ["ALT_ACCOUNT_KEY", "SECOND_PROVIDER_TOKEN", "fallback_gw_secret"][((g / 3 + seed) % 3) as usize];
+    let pre = |p: &str| if sc.shape == 2 { "{{K}}".to_string() } else if sc.shape == 1 { format!("{}_{{{{K}}}}", p.to_uppercase()) } else { format!("{p}-{{{{K}}}}") };
+    sc.thread = g % 2 == 0;
+    sc.env.push((name.into(), key));
+    sc.env.push((alt_name.into(), pre("alt")));
+    sc.env.push(("RIP_OPENRESPONSES_API_KEY".into(), pre("rip")));
+    sc.env.push(("OPENAI_API_KEY".into(), pre("oa")));
+    sc.env.push(("OPENROUTER_API_KEY".into(), pre("or")));
+    sc.env.push(("RV_PUBLIC_MARKER".into(), "visible-to-tools".into()));
+    sc.env.push(("RIP_OPENRESPONSES_ENDPOINT".into(), "{{P}}/v1/responses".into()));
+    if rng.chance(1, 2) {
+        sc.env.push(("RIP_OPENRESPONSES_DUMP_REQUEST".into(), "1".into()));
+    }
+    // the selected provider (key by reference, a secret header) and one with an inline key in one file; a provider that no run
+    // selects, with its own reference, in another file
+    let slot = ((g + seed) % 7) as u8;
+    let alt_slot = (slot + 1 + (g % 6) as u8) % 7;
+    let hdr = hdr_template(rng, sc.shape);
+    sc.layers.push(Layer {
+        slot,
+        providers: vec![
+            ProvSpec { id: "acme".into(), endpoint: Some("{{P}}/v1/responses".into()), api_key: Some(KeySpec::Env(name.into())), headers: vec![("X-Api-Key".into(), if template_flags(&hdr).1 { "tok {{H}}".into() } else { hdr })] },
+            ProvSpec { id: "inl".into(), endpoint: Some("{{P}}/inl/v1/responses".into()), api_key: Some(KeySpec::Inline(pre("inline"))), headers: vec![] },
+        ],
+        model: Some("acme/fixture-model".into()),
+        ..Default::default()
+    });
+    sc.layers.push(Layer { slot: alt_slot, providers: vec![ProvSpec { id: "alt".into(), endpoint: Some("{{P}}/alt/v1/responses".into()), api_key: Some(KeySpec::Env(alt_name.into())), headers: vec![] }], ..Default::default() });
+    match kind {
+        0 => {
+            sc.real_authority = g % 3 == 1;
+            // quick: (4 ways) x (cwd absent / below the root / not spawning) x (6 env kinds) = 72 probes over 8 scenarios, the spelling
+            // of the directory rotating so that every way meets every spelling; thorough: the full 4 x 10 x 6 over 27 scenarios
+            for k in 0..9u64 {
+                let t = g * 9 + k;
+                let vm = t % 4;
+                let e = (t / 4) % N_ENV_KINDS;
+                let form = if full {
+                    ((t / 24) % 10) as usize
+                } else {
+                    match (t / 24) % 3 {
+                        0 => 0,
+                        1 => 1 + ((t / 4 + vm + seed) % 6) as usize,
+                        _ => 7 + ((t / 4 + vm + seed) % 3) as usize,
+                    }
+                };
+                sc.spawns.push(grid_probe(vm, form, e, t + seed, name));
+            }
+            sc.channel = "spawn-grid:tool+pipes".into();
+        }
+        1 => {
+            sc.real_authority = g % 5 == 2;
+            sc.env.push(("RIP_TASKS_ALLOW_PTY".into(), ["1", "true", "on"][(g % 3) as usize].into()));
+            let e = g % N_ENV_KINDS;
+            let form = if full {
+                ((g / N_ENV_KINDS) % 10) as usize
+            } else {
+                match (g / N_ENV_KINDS) % 3 {
+                    0 => 0,
+                    1 => 1 + ((g + seed) % 6) as usize,
+                    _ => 7 + ((g + seed) % 3) as usize,
+                }
+            };
+            sc.spawns.push(grid_probe(4, form, e, g + seed, name));
+            sc.channel = "spawn-grid:pty".into();
+        }
+        _ => {
+            sc.cli = true;
+            sc.thread = true;
+            let with_pty = g % 2 == 1;
+            if with_pty {
+                sc.env.push(("RIP_TASKS_ALLOW_PTY".into(), "1".into()));
+            }
+            for k in 0..4u64 {
+                let class = (k + g) % 3;
+                let form = match class {
+                    0 => 0,
+                    1 => 1 + ((k + g + seed) % 6) as usize,
+                    _ => 7 + ((k + g + seed) % 3) as usize,
+                };
+                sc.spawns.push(grid_probe(5, form, (k * 2 + g + g / 3) % N_ENV_KINDS, g * 4 + k + seed, name));
+            }
+            if with_pty {
+                sc.spawns.push(grid_probe(6, 1 + ((g + seed) % 6) as usize, (g / 2) % N_ENV_KINDS, g + seed, name));
+            }
+            sc.channel = "spawn-grid:rip-tasks-spawn".into();
+        }
+    }
+    sc
+}
+
 /// frames of the two runs' SSE reads with the same seq (an SSE read may lack frames: see `sse_until`)
 fn sse_pairs(a: &[Value], b: &[Value]) -> Vec<(Vec<u8>, Vec<u8>)> {
     let mut out = vec![];
@@ -2670,6 +3265,23 @@ fn check_pair(a: &RunOut, b: &RunOut, cores: [&str; 6], sc: &Scenario) -> PairRe
             rep.violations.push(("child_errors".into(), format!("{:?}", r.obs.errors)));
         }
     }
+    // spawn grid: every probe that is expected to spawn a subprocess must have printed a REAL view of its environment (PATH and the
+    // public marker - from the authority or from the call's own `env`), otherwise the scenario shows nothing
+    for r in [a, b] {
+        for (i, p) in r.sc.spawns.iter().enumerate() {
+            rep.checks += 1;
+            let view = spawn_view_of(r, i);
+            if p.spawns() {
+                let real = view.as_ref().map(|v| v.iter().any(|(k, _)| k == "PATH") && v.iter().any(|(k, _)| k == "RV_PUBLIC_MARKER")).unwrap_or(false);
+                if !real {
+                    rep.violations.push((
+                        "spawn_probe_vacuous".into(),
+                        format!("probe #{i} ({}) printed no view of its environment: {:?}", p.label(), r.obs.spawn_outs.get(i).cloned().flatten().map(|o| o.chars().take(300).collect::<String>())),
+                    ));
+                }
+            }
+        }
+    }
     // (+) positive control: the secret reached the provider
     let uses_hdr = sc.layers.iter().any(|l| l.providers.iter().any(|p| p.headers.iter().any(|h| h.1.contains("{{H}}"))));
     let reached = |r: &RunOut, key_core: &str, hdr_core: &str| -> bool {
@@ -2684,7 +3296,15 @@ fn check_pair(a: &RunOut, b: &RunOut, cores: [&str; 6], sc: &Scenario) -> PairRe
             key_ok
         }
     };
-    if let Some(p2) = &sc.phase2 {
+    if !sc.spawns.is_empty() {
+        // spawn grid: when the provider asked for probes, the run's key reached it
+        if sc.spawns.iter().any(|p| p.via == "provider") {
+            let any = |r: &RunOut, core: &str| r.recorded.iter().any(|req| req.headers.iter().any(|(k, v)| k == "authorization" && v.contains(core)));
+            rep.positive = any(a, cores[0]) && any(b, cores[2]);
+        } else {
+            rep.positive_na = true;
+        }
+    } else if let Some(p2) = &sc.phase2 {
         // multi-step: when the probe is a thread-path run under the edited configuration the key behind NAME must have
         // reached the provider (that the edit was picked up is checked on the doctor in every multi-step scenario)
         if p2.probe == "provider-bash" && sc.thread && !sc.secret_unsendable && p2.load != "none" {
@@ -2699,8 +3319,12 @@ fn check_pair(a: &RunOut, b: &RunOut, cores: [&str; 6], sc: &Scenario) -> PairRe
         rep.positive = reached(a, cores[0], cores[1]) && reached(b, cores[2], cores[3]);
     }
     // (ii) persisted bytes equal after canonicalisation
-    let ca = canon_files(a);
-    let cb = canon_files(b);
+    // (not for a scenario with a pty task: the frames of its output follow the reads of the pty master - their number depends on
+    // timing - and the task never reaches its final frames, see drive_task_probe; canary search, response differential and the
+    // correspondence still apply)
+    let pty_frames = sc.spawns.iter().any(|p| p.is_pty());
+    let ca = if pty_frames { vec![] } else { canon_files(a) };
+    let cb = if pty_frames { vec![] } else { canon_files(b) };
     rep.checks += 1;
     if ca != cb {
         let mut what = format!("persisted bytes differ between the two canary runs ({} vs {} files)", ca.len(), cb.len());
@@ -2753,7 +3377,7 @@ fn check_pair(a: &RunOut, b: &RunOut, cores: [&str; 6], sc: &Scenario) -> PairRe
     // the key variable and its whole environment.  When every persisted session frame that holds a canary is a tool-output
     // frame (tool_stdout / tool_stderr / tool_ended / ..) the leak is exactly "tool output shows the inherited
     // environment"; anything else keeps its generic class.
-    if sc.outcome == 8 || sc.phase2.is_some() {
+    if sc.outcome == 8 || sc.phase2.is_some() || !sc.spawns.is_empty() {
         let tool_only = |r: &RunOut, cs: [&str; 2]| -> Option<bool> {
             let mut any = false;
             for f in &r.disk_session {
@@ -2771,7 +3395,16 @@ fn check_pair(a: &RunOut, b: &RunOut, cores: [&str; 6], sc: &Scenario) -> PairRe
             let (leaks, rest): (Vec<_>, Vec<_>) = rep.violations.drain(..).partition(|(c, _)| c.starts_with("secret_in_") || c.ends_with("_depends_on_secret"));
             rep.violations = rest;
             if let Some((_, first)) = leaks.first() {
+                // spawn grid: the probes whose subprocess printed a canary
+                let leaking: Vec<String> = sc
+                    .spawns
+                    .iter()
+                    .enumerate()
+                    .filter(|(i, _)| [(a, [cores[0], cores[1]]), (b, [cores[2], cores[3]])].iter().any(|(r, cs)| r.obs.spawn_outs.get(*i).cloned().flatten().map(|o| cs.iter().any(|c| o.contains(c))).unwrap_or(false)))
+                    .map(|(i, p)| format!("#{i} {}", p.label()))
+                    .collect();
                 let what = match &sc.phase2 {
+                    _ if !sc.spawns.is_empty() => format!("a subprocess of the authority sees a credential variable of the authority: {} of the {} spawns of this scenario print a key (`env` / printenv / /proc/self/environ) - {}", leaking.len(), sc.spawns.len(), leaking.join("; ")),
                     Some(p2) => format!("a subprocess spawned AFTER the configuration naming {} as a key source ({{ \"env\": \"{}\" }}, file written while the authority was running; warm-up: {}, loaded by: {}) still gets that variable: `printenv {}; env` shows the key in tool output", p2.name, p2.name, p2.warmup, p2.load, p2.name),
                     None => "tool subprocesses inherit the authority's credential variables again: a provider-requested `printenv RIP_OPENRESPONSES_API_KEY; env` (or a background task running `env`) shows the env-supplied key in tool output".to_string(),
                 };
@@ -2834,6 +3467,12 @@ fn main() {
     let n_clirun: u64 = args.extra.get("clirun").and_then(|v| v.parse().ok()).unwrap_or(if full { 37 } else { 8 });
     let n_toolenv: u64 = args.extra.get("toolenv").and_then(|v| v.parse().ok()).unwrap_or(if full { 24 } else { 6 });
     let n_startup: u64 = args.extra.get("startup").and_then(|v| v.parse().ok()).unwrap_or(if full { 24 } else { 6 });
+    // the spawn grid: (tool + pipes scenarios, pty scenarios, `rip tasks spawn` scenarios)
+    let n_spawn: [u64; 3] = match args.extra.get("spawngrid").and_then(|v| v.parse::<u64>().ok()) {
+        Some(0) => [0, 0, 0],
+        Some(k) => [k, k, k.min(2)],
+        None => if full { [27, 60, 6] } else { [8, 18, 2] },
+    };
     let grid = |rng: &mut Rng, scenarios: &mut Vec<Scenario>| {
         for i in 0..n {
             scenarios.push(gen_scenario(rng, i));
@@ -2841,6 +3480,11 @@ fn main() {
     };
     if !search {
         grid(&mut rng, &mut scenarios);
+    }
+    for (kind, n) in n_spawn.iter().enumerate() {
+        for g in 0..*n {
+            scenarios.push(gen_spawngrid(&mut rng, kind as u8, g, args.seed, full));
+        }
     }
     for j in 0..n_multi {
         // quick: the four main combinations for every config slot, then one of each remaining combination
@@ -2872,6 +3516,11 @@ fn main() {
             if sc.cli {
                 sc.cli = false;
                 sc.real_authority = true;
+                for p in &mut sc.spawns {
+                    if p.via == "cli-task" {
+                        p.via = "task".into();
+                    }
+                }
             }
         }
     }
@@ -2946,6 +3595,13 @@ fn main() {
         }
         if sc.phase2.is_some() {
             res.bump("multi-step-scenarios (spawn, edit, load, probe)");
+        }
+        for p in &sc.spawns {
+            res.bump(&format!("spawn-probe:via={}{}", p.via, p.mode.as_ref().map(|m| format!("/{m}")).unwrap_or_default()));
+            res.bump(&format!("spawn-probe:cwd={}", match &p.cwd { None => "(absent)".to_string(), Some(c) => format!("{c:?}") }));
+            res.bump(&format!("spawn-probe:env={}", match &p.env { None => "(absent)".to_string(), Some(e) => format!("{:?}", e.iter().map(|(k, _)| k.as_str()).collect::<Vec<_>>()) }));
+            res.bump(&format!("spawn-probe:tool={}", p.tool));
+            res.bump(&format!("spawn-probe:dump={}", p.dump));
         }
         res.bump(if sc.thread { "path:thread" } else { "path:session" });
         if sc.oracle_only {
